@@ -430,10 +430,45 @@ func (a *Array) Example(r *ExampleGenerator) any {
 // produce more precise types.
 func (a *Array) MakeSlice(s []any) any {
 	slice := reflect.MakeSlice(toReflectType(a), 0, len(s))
+	elem := slice.Type().Elem()
 	for _, item := range s {
-		slice = reflect.Append(slice, reflect.ValueOf(item))
+		v, ok := exampleValue(item, elem)
+		if !ok {
+			// Cannot build a precise type, use the generic slice.
+			return s
+		}
+		slice = reflect.Append(slice, v)
 	}
 	return slice.Interface()
+}
+
+// exampleValue returns the reflect value of val as a value of type t. nil is
+// turned into the zero value of t (recursive types have nil examples) and
+// numbers are converted to t (enum values may be given as untyped constants,
+// e.g. Enum(1, 2) on a UInt attribute). The second result is false if val
+// cannot be represented as a t.
+func exampleValue(val any, t reflect.Type) (reflect.Value, bool) {
+	v := reflect.ValueOf(val)
+	if !v.IsValid() {
+		return reflect.Zero(t), true
+	}
+	if v.Type().AssignableTo(t) {
+		return v, true
+	}
+	if isNumberKind(v.Kind()) && isNumberKind(t.Kind()) {
+		return v.Convert(t), true
+	}
+	return v, false
+}
+
+func isNumberKind(k reflect.Kind) bool {
+	switch k {
+	case reflect.Int, reflect.Int8, reflect.Int16, reflect.Int32, reflect.Int64,
+		reflect.Uint, reflect.Uint8, reflect.Uint16, reflect.Uint32, reflect.Uint64,
+		reflect.Float32, reflect.Float64:
+		return true
+	}
+	return false
 }
 
 // ToSlice converts an ArrayVal into a slice.
@@ -599,8 +634,17 @@ func (m *Map) MakeMap(raw map[any]any) any {
 	sort.Slice(keys, func(i, j int) bool {
 		return reflect.ValueOf(keys[i]).String() < reflect.ValueOf(keys[j]).String()
 	})
+	kt, et := ma.Type().Key(), ma.Type().Elem()
 	for _, key := range keys {
-		ma.SetMapIndex(reflect.ValueOf(key), reflect.ValueOf(raw[key]))
+		k, ok := exampleValue(key, kt)
+		if !ok || key == nil {
+			continue // cannot be represented with the precise key type
+		}
+		v, ok := exampleValue(raw[key], et)
+		if !ok {
+			continue
+		}
+		ma.SetMapIndex(k, v)
 	}
 	return ma.Interface()
 }
